@@ -35,6 +35,7 @@ class SumEval:
         self.records: List[Tuple[ast.Call, Dict[str, tuple]]] = []
         self._ids = itertools.count(1)
         self.notes: List[str] = []
+        self.skips: List[Tuple[FuncInfo, ast.If]] = []      # `if cond: continue/break` directly in the loop over the sub-zones
 
     # ------------------------------------------------------------------ expressions
     def ev(self, f: FuncInfo, e: ast.AST, env: dict, inrec: bool) -> tuple:
@@ -68,6 +69,8 @@ class SumEval:
                 return ("recattr", e.attr)
             if b[0] == "uelem" and e.attr == "heat_flow":
                 return ("duty", b)
+            if b[0] == "rec-other":
+                return ("recattr-other", e.attr, b[1])
             return OTHER
         if isinstance(e, ast.Call):
             return self.call(f, e, env, inrec)
@@ -81,6 +84,8 @@ class SumEval:
                         return ("rec",)
                     if b[1] == "zone" and zv[0] == "zone":
                         return ("ownrec",)
+                if kt is not None and kt[1] != "DI" and b[1] == "subzone" and env.get(kt[0], OTHER)[0] == "subzone":
+                    return ("rec-other", kt[1])
                 return OTHER
             if b[0] == "ucoll":
                 i = self.ev(f, e.slice, env, inrec)
@@ -90,6 +95,11 @@ class SumEval:
             return OTHER
         if isinstance(e, (ast.Tuple, ast.List)):
             return ("tuple", tuple(self.ev(f, x, env, inrec) for x in e.elts))
+        if isinstance(e, (ast.ListComp, ast.GeneratorExp)) and len(e.generators) == 1 and e.generators[0].ifs:
+            it = self.ev(f, e.generators[0].iter, env, inrec)
+            if it[0] in ("subzones", "reclist"):
+                self.skips.append((f, e.generators[0].ifs[0]))
+            return OTHER
         if isinstance(e, (ast.ListComp, ast.GeneratorExp)):
             if len(e.generators) == 1 and not e.generators[0].ifs:
                 g = e.generators[0]
@@ -132,6 +142,10 @@ class SumEval:
                     return OTHER
                 d[b[1]] = d.get(b[1], 0) + 1
                 return acc(d)
+            if d is not None and b[0] == "recattr-other":
+                return ("acc-bad", f"the sub-zone's '{b[2]}' record (attribute {b[1]})")
+            if a[0] == "acc-bad":
+                return a
             if d is not None and b[0] == "acc":
                 for k, v in b[1]:
                     d[k] = d.get(k, 0) + v
@@ -149,6 +163,15 @@ class SumEval:
             b = self.ev(f, fn.value, env, inrec)
             if b[0] == "subzonesmap":
                 return ("subzones",)
+        if isinstance(fn, ast.Attribute) and fn.attr == "get" and c.args:
+            b = self.ev(f, fn.value, env, inrec)
+            if b[0] == "targets" and b[1] == "subzone":
+                kt = _key_target(self.r, f, c.args[0], self.tt)
+                if kt is not None and env.get(kt[0], OTHER)[0] == "subzone":
+                    if kt[1] == "DI" and len(c.args) == 1:
+                        return ("rec",)
+                    # another record of the sub-zone is preferred (the default only applies when it is absent)
+                    return ("rec-other", kt[1])
         tg = self.r.resolve_call(f, c)
         if any(t == "ext:copy.deepcopy" for t in tg if isinstance(t, str)) and c.args:
             v = self.ev(f, c.args[0], env, inrec)
@@ -207,7 +230,7 @@ class SumEval:
                 for k in c.keywords:
                     if k.arg:
                         binds[k.arg] = self.ev(f, k.value, env, inrec)
-                if t.name.startswith("_set") and any(v[0] in ("acc", "zero") for v in binds.values()):
+                if t.name.startswith("_set") and any(v[0] in ("acc", "zero", "acc-bad") for v in binds.values()):
                     self.results.append((t, c, binds))
                 return self.run_function(t, binds, inrec)
         return OTHER
@@ -261,6 +284,11 @@ class SumEval:
                     if inrec:
                         self.notes.append(f"{f.module.relpath}:{st.lineno}: nested loop over the sub-zones")
                     self.bind(st.target, self._elem(it), env)
+                    for sub in st.body:
+                        if isinstance(sub, ast.If):
+                            for br in (sub.body, sub.orelse):
+                                if any(isinstance(x, (ast.Continue, ast.Break)) for x in br):
+                                    self.skips.append((f, sub))
                     self.block(f, st.body, env, True, rets)
                 elif it[0] == "range":
                     i = ("idx", next(self._ids), it[1])
@@ -311,13 +339,20 @@ def check_zone_sum(ctx: CheckContext, p: Program, r: Resolver, rule: str = "ACC"
     need = [pn for pn in callee.pos_params if pn.endswith("_target")]
     if len(need) < 3:
         raise AnalysisError(f"{callee.loc}: expected the three *_target parameters")
+    for sf, sk in ev.skips:
+        cond = sk.test if isinstance(sk, ast.If) else sk
+        ctx.ob(rule, f"{f.qualname}:every-sub-zone:{ast.unparse(cond)[:60]}", f"{sf.module.relpath}:{sk.lineno}", False,
+               f"the loop over the sub-zones leaves out a sub-zone depending on `{ast.unparse(cond)[:80]}`: the total-process record is no longer the sum "
+               f"over ALL sub-zones' direct-integration records")
     for pn in need:
         v = binds.get(pn, OTHER)
         want = acc({pn: 1})
         ok = v == want
         why = ""
         if not ok:
-            if v[0] == "acc":
+            if v[0] == "acc-bad":
+                why = f"'{pn}' of the total-process record is summed from {v[1]} instead of the sub-zone's direct-integration record"
+            elif v[0] == "acc":
                 got = ", ".join(f"{k} x{n}" for k, n in v[1]) or "nothing"
                 why = f"'{pn}' of the total-process record is the per-sub-zone sum of [{got}] instead of [{pn} x1]"
             elif v[0] == "zero":
